@@ -495,6 +495,11 @@ def expected_tree(nodes, opts, mode, B, xattr_file_entries=None, extra_implicit=
         idset.add(e["gid"])
     if len(idset) > 65535:
         raise Unrepresentable("%d distinct owner ids" % len(idset))
+    for e in exp.values():
+        for k in e["xattrs"]:
+            # the on-disk key record has a 16 bit length for the name behind its prefix
+            if len(k.split(b".", 1)[-1]) > 0xFFFF:
+                raise Unrepresentable("xattr name of %d bytes" % len(k))
     for p in exp:
         for c in p.split(b"/"):
             if len(c) > 256:
